@@ -22,9 +22,9 @@ Proofs/Walk.vos Proofs/Walk.vok Proofs/Walk.required_vos: Proofs/Walk.v Model/Da
 Proofs/DagApi.vo Proofs/DagApi.glob Proofs/DagApi.v.beautified Proofs/DagApi.required_vo: Proofs/DagApi.v Model/Dag.vo Proofs/Kahn.vo Proofs/Walk.vo
 Proofs/DagApi.vio: Proofs/DagApi.v Model/Dag.vio Proofs/Kahn.vio Proofs/Walk.vio
 Proofs/DagApi.vos Proofs/DagApi.vok Proofs/DagApi.required_vos: Proofs/DagApi.v Model/Dag.vos Proofs/Kahn.vos Proofs/Walk.vos
-Harness/Glue.vo Harness/Glue.glob Harness/Glue.v.beautified Harness/Glue.required_vo: Harness/Glue.v Lib/Bytes.vo Lib/Val.vo Model/Index.vo Model/Dag.vo Model/Git.vo
-Harness/Glue.vio: Harness/Glue.v Lib/Bytes.vio Lib/Val.vio Model/Index.vio Model/Dag.vio Model/Git.vio
-Harness/Glue.vos Harness/Glue.vok Harness/Glue.required_vos: Harness/Glue.v Lib/Bytes.vos Lib/Val.vos Model/Index.vos Model/Dag.vos Model/Git.vos
+Harness/Glue.vo Harness/Glue.glob Harness/Glue.v.beautified Harness/Glue.required_vo: Harness/Glue.v Lib/Bytes.vo Lib/Val.vo Model/Index.vo Model/Dag.vo Model/Git.vo Model/Tracking.vo
+Harness/Glue.vio: Harness/Glue.v Lib/Bytes.vio Lib/Val.vio Model/Index.vio Model/Dag.vio Model/Git.vio Model/Tracking.vio
+Harness/Glue.vos Harness/Glue.vok Harness/Glue.required_vos: Harness/Glue.v Lib/Bytes.vos Lib/Val.vos Model/Index.vos Model/Dag.vos Model/Git.vos Model/Tracking.vos
 Harness/Extract.vo Harness/Extract.glob Harness/Extract.v.beautified Harness/Extract.required_vo: Harness/Extract.v Harness/Glue.vo
 Harness/Extract.vio: Harness/Extract.v Harness/Glue.vio
 Harness/Extract.vos Harness/Extract.vok Harness/Extract.required_vos: Harness/Extract.v Harness/Glue.vos
@@ -76,3 +76,18 @@ Properties/C19.vos Properties/C19.vok Properties/C19.required_vos: Properties/C1
 AsFound/C02.vo AsFound/C02.glob AsFound/C02.v.beautified AsFound/C02.required_vo: AsFound/C02.v Model/Git.vo Proofs/GitProof.vo Properties/C02.vo
 AsFound/C02.vio: AsFound/C02.v Model/Git.vio Proofs/GitProof.vio Properties/C02.vio
 AsFound/C02.vos AsFound/C02.vok AsFound/C02.required_vos: AsFound/C02.v Model/Git.vos Proofs/GitProof.vos Properties/C02.vos
+Model/Tracking.vo Model/Tracking.glob Model/Tracking.v.beautified Model/Tracking.required_vo: Model/Tracking.v 
+Model/Tracking.vio: Model/Tracking.v 
+Model/Tracking.vos Model/Tracking.vok Model/Tracking.required_vos: Model/Tracking.v 
+Proofs/TrackingProof.vo Proofs/TrackingProof.glob Proofs/TrackingProof.v.beautified Proofs/TrackingProof.required_vo: Proofs/TrackingProof.v Model/Tracking.vo
+Proofs/TrackingProof.vio: Proofs/TrackingProof.v Model/Tracking.vio
+Proofs/TrackingProof.vos Proofs/TrackingProof.vok Proofs/TrackingProof.required_vos: Proofs/TrackingProof.v Model/Tracking.vos
+Properties/C12.vo Properties/C12.glob Properties/C12.v.beautified Properties/C12.required_vo: Properties/C12.v Model/Tracking.vo Proofs/TrackingProof.vo
+Properties/C12.vio: Properties/C12.v Model/Tracking.vio Proofs/TrackingProof.vio
+Properties/C12.vos Properties/C12.vok Properties/C12.required_vos: Properties/C12.v Model/Tracking.vos Proofs/TrackingProof.vos
+Properties/C13.vo Properties/C13.glob Properties/C13.v.beautified Properties/C13.required_vo: Properties/C13.v Model/Tracking.vo Proofs/TrackingProof.vo
+Properties/C13.vio: Properties/C13.v Model/Tracking.vio Proofs/TrackingProof.vio
+Properties/C13.vos Properties/C13.vok Properties/C13.required_vos: Properties/C13.v Model/Tracking.vos Proofs/TrackingProof.vos
+AsFound/C13.vo AsFound/C13.glob AsFound/C13.v.beautified AsFound/C13.required_vo: AsFound/C13.v Model/Tracking.vo Proofs/TrackingProof.vo Properties/C13.vo
+AsFound/C13.vio: AsFound/C13.v Model/Tracking.vio Proofs/TrackingProof.vio Properties/C13.vio
+AsFound/C13.vos AsFound/C13.vok AsFound/C13.required_vos: AsFound/C13.v Model/Tracking.vos Proofs/TrackingProof.vos Properties/C13.vos
